@@ -81,7 +81,7 @@ type cat struct {
 	multimap  bool   // maps with several entries: Deconstruct's order is random
 	longLists bool   // lists long enough to cross 64-element words
 	hugeLists bool   // now and then a list of more than 1024 elements
-	noDeep    bool   // skip reflect.DeepEqual (time.Time)
+	noDeep    bool   // skip reflect.DeepEqual (time.Time; nil pointers where the schema has no null)
 	noRecon   bool   // Reconstruct is not compared (interface-typed fields, lossy logical types)
 	dyn       bool   // the type has interface-typed fields: replays use the typed codec
 	nodeGen   bool   // values are generated along the schema (interface fields, constrained leaves)
